@@ -1,6 +1,7 @@
 package main
 
 import (
+	"bytes"
 	"github.com/libsv/go-bk/bec"
 	"encoding/hex"
 	"fmt"
@@ -78,6 +79,32 @@ func init() {
 			s3, err3 := bscript.NewP2PKHFromAddress(ad.AddressString)
 			if err1 != nil || err2 != nil || err3 != nil {
 				return "err-script"
+			}
+			// the byte-slice routes with the caller's data packed the way a wallet keeps it: the key / hash is a window
+			// into a larger live buffer (spare capacity behind it); the result must be the same and the buffer untouched
+			if hb, err := hex.DecodeString(ad.PublicKeyHash); err == nil && len(hb) == 20 {
+				packed := make([]byte, 0, 96)
+				packed = append(packed, hb...)
+				for i := 0; i < 40; i++ {
+					packed = append(packed, hb[i%20]^0x5a)
+				}
+				before := append([]byte{}, packed...)
+				kbuf := make([]byte, 0, len(key)+32)
+				kbuf = append(append(kbuf, key...), before[:24]...)
+				kbefore := append([]byte{}, kbuf...)
+				sA, errA := bscript.NewP2PKHFromPubKeyHash(packed[:20])
+				adA, errB := bscript.NewAddressFromPublicKeyHash(packed[:20], mainnet)
+				sB, errC := bscript.NewP2PKHFromPubKeyBytes(kbuf[:len(key)])
+				if errA != nil || errB != nil || errC != nil {
+					return "err-script-raw"
+				}
+				if !bytes.Equal(packed, before) || !bytes.Equal(kbuf, kbefore) {
+					bad := bscript.Script("caller-buffer-changed")
+					s2 = &bad
+				} else if !bytes.Equal(*sA, *s2) || adA.AddressString != ad.AddressString || !bytes.Equal(*sB, *s1) {
+					bad := bscript.Script("raw-route-differs")
+					s2 = &bad
+				}
 			}
 			back, err := s1.PublicKeyHash()
 			if err != nil {
